@@ -74,7 +74,7 @@ CHECKS["C05"] = {
 
 CHECKS["C06"] = {
     "technique": "refinement obligations by abstract interpretation of each iterator method under the invariant index <= index_back <= N (private helpers expanded); nth/nth_back judged per return path against the deque specification; defaults of optional overrides accepted",
-    "text": "Static refinement argument: with alpha(iter) = array[index..index_back] the queue behaviour over all interleavings follows by induction from per-method obligations, each decided on the polymorphic MIR with the invariant assumed at entry: invariant established by into_iter and preserved by every index store; next/next_back read exactly the slot their index update excludes, only under index < index_back, return Some of that slot and store nothing on the None path (fused); len/size_hint/count are index_back - index; nth/nth_back skip min(n, len) at the proper end then delegate; last = next_back; as_slice/as_mut_slice/Debug view exactly [index, index_back); fold/rfold traverse that range ascending/descending with one read + one index step before f(acc, value); clone copies [index, index_back) element-wise in order to the front of a fresh (0, count) iterator and never stores to the original; every get_unchecked index/range is in bounds under the invariant. Elements are opaque values of a type parameter, so which element = which index; nothing is executed.",
+    "text": "Static refinement argument: with alpha(iter) = array[index..index_back] the queue behaviour over all interleavings follows by induction from per-method obligations, each decided on the polymorphic MIR with the invariant assumed at entry: invariant established by into_iter and preserved by every index store; next/next_back read exactly the slot their index update excludes, only under index < index_back, return Some of that slot and store nothing on the None path (fused); len/size_hint/count are index_back - index; nth/nth_back skip min(n, len) at the proper end then delegate; last = next_back; as_slice/as_mut_slice/Debug view exactly [index, index_back); fold/rfold traverse that range ascending/descending with one read + one index step before f(acc, value); clone copies [index, index_back) element-wise in order to the front of a fresh (0, count) iterator and never stores to the original; every get_unchecked index/range is in bounds under the invariant. Elements are opaque values of a type parameter, so which element = which index; nothing is executed. C06.N totality: under the invariant no method of the iterator has a reachable panic of its own - no explicit panic and no overflow / underflow check of the cursor arithmetic that can fail (usize quantities are bounded by usize::MAX; `index + n` with an unbounded n is reported).",
     "design_ref": "DESIGN.md §3 C06",
     "note": TRUST + " slice::Iter::fold/rfold direction and Zip pairing are trusted std; the formatted Debug string is not checked (the delegation is).",
 }
